@@ -5,6 +5,7 @@ import (
 	"go/constant"
 	"go/token"
 	"go/types"
+	"strings"
 
 	"golang.org/x/tools/go/ssa"
 )
@@ -145,6 +146,7 @@ func parenC03(c *Ctx, tt *tokenTable) {
 			c.Unk("C03.paren", "(*Parser).parseUnaryExpr: return after '('", pu.Pos(), "no successful return is reachable with a leading '('")
 		}
 	}
+	parenPrintC03(c)
 	// --- regex rhs ---
 	var insertBlk *ssa.BasicBlock
 	binT := p.Named("BinaryExpr")
@@ -389,4 +391,79 @@ func describeOperand(v ssa.Value, binT *types.Named) string {
 		return describeOperand(x.X, binT)
 	}
 	return v.Name()
+}
+
+// parenPrintC03: the printer writes an explicit group back as a group.
+func parenPrintC03(c *Ctx) {
+	p := c.P
+	c.Rule("C03.parenprint", "every text ParenExpr.String can return is `(` + the inner expression's text + `)`: a group the parser kept as a node is printed as a group, whatever is inside it")
+	f := p.SSAFunc(p.Method("ParenExpr", "String"))
+	if f == nil {
+		c.Unk("C03.parenprint", "ParenExpr.String", 0, "anchor not found")
+		return
+	}
+	leaf := func(v ssa.Value) (string, bool) {
+		call, ok := v.(*ssa.Call)
+		if !ok {
+			return "", false
+		}
+		name := ""
+		var recv ssa.Value
+		if call.Call.IsInvoke() {
+			name, recv = call.Call.Method.Name(), call.Call.Value
+		} else if cal := call.Call.StaticCallee(); cal != nil && cal.Signature.Recv() != nil && len(call.Call.Args) > 0 {
+			name, recv = cal.Name(), call.Call.Args[0]
+		}
+		if name != "String" {
+			return "", false
+		}
+		if _, fld, ok := fieldRef(recv); ok && fld == "Expr" {
+			return "<inner>", true
+		}
+		// a value obtained from e.Expr by a type assertion
+		if derivesFromField(recv, "Expr", 0) {
+			return "<inner>", true
+		}
+		return "<?>", true
+	}
+	n := 0
+	for _, b := range f.Blocks {
+		ret, ok := b.Instrs[len(b.Instrs)-1].(*ssa.Return)
+		if !ok || len(ret.Results) != 1 {
+			continue
+		}
+		for _, a := range stringTemplates(ret.Results[0], leaf, 0) {
+			n++
+			key := "ParenExpr.String: returns " + a
+			switch {
+			case a == "(<inner>)":
+				c.OK("C03.parenprint", key, ret.Pos(), "group printed as a group")
+			case strings.Contains(a, "<?>"):
+				c.Unk("C03.parenprint", key, ret.Pos(), "text built in a way this rule does not expand")
+			default:
+				c.Bad("C03.parenprint", key, ret.Pos(), "an explicit group is printed without its parentheses (or with something else around it): the text re-parses with different grouping")
+			}
+		}
+	}
+	c.Floor("C03.parenprint", n, 1)
+}
+
+func derivesFromField(v ssa.Value, field string, depth int) bool {
+	if depth > 6 {
+		return false
+	}
+	if _, fld, ok := fieldRef(v); ok && fld == field {
+		return true
+	}
+	switch x := v.(type) {
+	case *ssa.TypeAssert:
+		return derivesFromField(x.X, field, depth+1)
+	case *ssa.Extract:
+		return derivesFromField(x.Tuple, field, depth+1)
+	case *ssa.MakeInterface:
+		return derivesFromField(x.X, field, depth+1)
+	case *ssa.ChangeInterface:
+		return derivesFromField(x.X, field, depth+1)
+	}
+	return false
 }
